@@ -50,6 +50,9 @@ impl<T: Clone> Getter<T, E> for Sensor<T> {
     }
 }
 thread_local! {
+    /// While non-zero, every scripted clock advances by this many nanoseconds at each READ (a
+    /// free-running counter): code that reads the clock twice within one call sees two instants.
+    pub static CLOCK_TICK_PER_GET: Cell<i64> = const { Cell::new(0) };
     /// Fault: while set, every scripted sensor's own `update()` fails with this error. (No stream is
     /// supposed to drive its input's update; one that does and mishandles the failure shows here.)
     pub static SENSOR_UPDATE_ERR: Cell<Option<u8>> = const { Cell::new(None) };
@@ -118,7 +121,14 @@ impl ClockHandle {
 impl TimeGetter<E> for SimClock {
     fn get(&self) -> TimeOutput<E> {
         self.gets.set(self.gets.get() + 1);
-        *self.cur.borrow()
+        let now = *self.cur.borrow();
+        let tick = CLOCK_TICK_PER_GET.with(|c| c.get());
+        if tick != 0 {
+            if let Ok(t) = now {
+                *self.cur.borrow_mut() = Ok(Time(t.0.saturating_add(tick)));
+            }
+        }
+        now
     }
 }
 impl Updatable<E> for SimClock {
